@@ -4,7 +4,7 @@
 // compared operation by operation with the Lean model `Aergo.Lib`; the property's own predicates
 // (oracle.go) are evaluated on what the real code reports.
 //
-//	part A  scripted histories (the two finding classes, and sanity runs)
+//	part A  scripted histories (the two known-finding classes; regression histories of the three repaired ones)
 //	part B  random multi-node schedules: producer slots, missed slots, partitions, delays, restarts, at most
 //	        one equivocating producer (f < n/3); node 0 runs on the real chain.ChainDB and is recorded
 //	part C  arbitrary single-node streams (lying Confirms, outsiders, producer-count changes, injected gc):
@@ -144,8 +144,8 @@ func partA(e *env) {
 		}
 		run.Count(fmt.Sprintf("A1 lib-before-restart=%d best-after=%s", libBefore, nd.best.name))
 	}
-	// A2: confirmsRequired handed to newLibStatus as a producer count (class C08-reload-quorum-shrinks): 7 producers, only
-	// p0 p1 p2 ever produce; a restart replays the window with a quorum of cr(cr(cr(7))) = 3 instead of 5.
+	// A2: regression history of the repaired class C08-reload-quorum-shrinks (a61f1aeb): 7 producers, only p0 p1 p2 ever
+	// produce; a restart used to replay the window with a quorum of cr(cr(cr(7))) = 3 instead of 5 and let the LIB advance.
 	{
 		w := e.world(run.Rng.Fork(), seqN(7))
 		rec := &recorder{run: run}
@@ -188,13 +188,13 @@ func partAWitnesses(e *env) {
 		run.Count(fmt.Sprintf("%s final-lib=%d best=%d", tag, d.Lib.No, nd.best.no))
 		return nd
 	}
-	// lib_monotone_false_reorg: four honest producers, one delayed block (class C08-lib-decreases-after-permitted-reorg)
+	// regression history of the repaired class C08-lib-decreases-after-permitted-reorg (db1b9b14): four honest producers, one delayed block
 	hist("A3", 4, 0, []sb{{"b1", "g", 0, 1}, {"b2", "b1", 1, 2}, {"b3", "b2", 2, 3}, {"b4", "b3", 3, 4}, {"b5", "b4", 0, 4}, {"b6", "b5", 1, 4},
 		{"b7", "b6", 2, 4}, {"b8", "b7", 3, 4}, {"c8", "b7", 1, 2}, {"c9", "c8", 2, 2}})
 	// lib_on_chain_false (class C08-lib-from-stale-entry-of-abandoned-branch)
 	hist("A4", 4, 0, []sb{{"a1", "g", 0, 1}, {"a2", "a1", 1, 2}, {"a3", "a2", 2, 3}, {"e1", "g", 3, 1}, {"e2", "e1", 0, 1}, {"e3", "e2", 1, 1},
 		{"e4", "e3", 2, 1}, {"e5", "e4", 3, 4}, {"e6", "e5", 0, 4}, {"e7", "e6", 1, 4}})
-	// lib_monotone_false_new_producer (class C08-lib-decreases-when-producer-first-seen)
+	// regression history of the repaired class C08-lib-decreases-when-producer-first-seen (db1b9b14)
 	hist("A5", 5, 0, []sb{{"b1", "g", 2, 1}, {"b2", "b1", 0, 2}, {"b3", "b2", 1, 3}, {"b4", "b3", 0, 2}, {"b5", "b4", 4, 2}, {"b6", "b5", 3, 4},
 		{"b7", "b6", 4, 2}, {"b8", "b7", 0, 4}, {"b9", "b8", 1, 6}})
 }
@@ -338,10 +338,10 @@ func probes(nd *node, rng *vh.Rng) {
 		}
 		ok := nd.needReorg(uint64(r))
 		if !nd.fault && uint64(r) < nd.maxLib.no && ok {
-			nd.failVeto(fmt.Sprintf("NeedReorganization(%d) = true below the LIB %d this node reported", r, nd.maxLib.no))
+			nd.failVeto(fmt.Sprintf("NeedReorganization(%d) = true below the LIB %d this node reported", r, nd.maxLib.no), false)
 		}
 		if !nd.fault && d.Loaded && ok != (uint64(r) >= d.Lib.No) {
-			nd.fail(fmt.Sprintf("NeedReorganization(%d) = %v with LIB %d", r, ok, d.Lib.No), "")
+			nd.fail(fmt.Sprintf("NeedReorganization(%d) = %v with LIB %d", r, ok, d.Lib.No), "", false)
 		}
 	}
 	// a competing block numbered lib.no, lib.no+1 (child of the main-chain block below it, some member as producer)
@@ -354,10 +354,10 @@ func probes(nd *node, rng *vh.Rng) {
 		b := nd.w.mkBlock(parent, nd.w.gbps[rng.Intn(len(nd.w.gbps))], 1)
 		ok := nd.verifyTs(b)
 		if !nd.fault && b.no <= nd.maxLib.no && ok {
-			nd.failVeto(fmt.Sprintf("VerifyTimestamp accepted a block numbered %d <= LIB %d this node reported", b.no, nd.maxLib.no))
+			nd.failVeto(fmt.Sprintf("VerifyTimestamp accepted a block numbered %d <= LIB %d this node reported", b.no, nd.maxLib.no), false)
 		}
 		if !nd.fault && d.Loaded && ok != (b.no > d.Lib.No) {
-			nd.fail(fmt.Sprintf("VerifyTimestamp(block %d) = %v with LIB %d", b.no, ok, d.Lib.No), "")
+			nd.fail(fmt.Sprintf("VerifyTimestamp(block %d) = %v with LIB %d", b.no, ok, d.Lib.No), "", false)
 		}
 	}
 }
